@@ -177,6 +177,205 @@ pub struct ExecEnv {
     pub cap: Duration,
     /// Address-space cap in bytes for the child (0 = none).
     pub mem_cap: u64,
+    /// Live fork servers of this process, keyed by (program, argc).
+    pub forks: std::cell::RefCell<Vec<ForkServer>>,
+}
+
+impl ExecEnv {
+    pub fn new(gram: PathBuf, shim: PathBuf, cap: Duration, mem_cap: u64) -> ExecEnv {
+        ExecEnv { gram, shim, cap, mem_cap, forks: std::cell::RefCell::new(vec![]) }
+    }
+}
+
+#[repr(C)]
+struct PollFd {
+    fd: c_int,
+    events: i16,
+    revents: i16,
+}
+
+unsafe extern "C" {
+    fn poll(fds: *mut PollFd, nfds: c_ulong, timeout_ms: c_int) -> c_int;
+    fn kill(pid: c_int, sig: c_int) -> c_int;
+}
+
+/// The real binary, started once and stopped inside the shim's constructor (after the dynamic
+/// loader, before the program's own initialisers and `main`), forking one child per launch.
+/// See `shim/entropy_shim.c`. Everything a launch is given - plan, arguments, environment,
+/// working directory, output files - travels over the control pipe.
+pub struct ForkServer {
+    program: PathBuf,
+    argc: usize,
+    child: std::process::Child,
+    ctl: std::process::ChildStdin,
+    status: std::process::ChildStdout,
+    buf: Vec<u8>,
+}
+
+impl ForkServer {
+    fn start(env: &ExecEnv, program: &Path, argc: usize) -> Result<ForkServer, String> {
+        let mut cmd = Command::new(program);
+        for i in 1..argc {
+            cmd.arg(format!("gramsim-placeholder-{i}"));
+        }
+        cmd.env_clear()
+            .env("LD_PRELOAD", &env.shim)
+            .env("GRAMSIM_FORKSERVER", "1")
+            .stdin(Stdio::piped())
+            .stdout(Stdio::piped())
+            .stderr(Stdio::null());
+        let mem_cap = env.mem_cap;
+        // SAFETY: only async-signal-safe calls between fork and exec.
+        unsafe {
+            cmd.pre_exec(move || {
+                personality(ADDR_NO_RANDOMIZE);
+                prctl(PR_SET_PDEATHSIG, SIGKILL, 0, 0, 0);
+                if mem_cap > 0 {
+                    let lim = RLimit { cur: mem_cap, max: mem_cap };
+                    setrlimit(RLIMIT_AS, &lim);
+                }
+                Ok(())
+            });
+        }
+        let mut child = cmd.spawn().map_err(|e| format!("spawn fork server {program:?}: {e}"))?;
+        let ctl = child.stdin.take().ok_or("fork server: no stdin")?;
+        let status = child.stdout.take().ok_or("fork server: no stdout")?;
+        Ok(ForkServer { program: program.to_path_buf(), argc, child, ctl, status, buf: vec![] })
+    }
+
+    /// Next status line, or None when `deadline` passes first.
+    fn read_line(&mut self, deadline: Instant) -> Result<Option<String>, String> {
+        use std::io::Read;
+        use std::os::fd::AsRawFd;
+        loop {
+            if let Some(pos) = self.buf.iter().position(|b| *b == b'\n') {
+                let line: Vec<u8> = self.buf.drain(..=pos).collect();
+                return Ok(Some(String::from_utf8_lossy(&line[..line.len() - 1]).into_owned()));
+            }
+            let now = Instant::now();
+            if now >= deadline {
+                return Ok(None);
+            }
+            let ms = (deadline - now).as_millis().min(60_000) as c_int;
+            let mut pfd = PollFd { fd: self.status.as_raw_fd(), events: 1, revents: 0 };
+            // SAFETY: one valid pollfd.
+            let r = unsafe { poll(&mut pfd, 1, ms.max(1)) };
+            if r < 0 {
+                continue;
+            }
+            if r == 0 {
+                continue;
+            }
+            let mut chunk = [0u8; 256];
+            match self.status.read(&mut chunk) {
+                Ok(0) => return Err("fork server closed its status pipe".to_owned()),
+                Ok(n) => self.buf.extend_from_slice(&chunk[..n]),
+                Err(e) => return Err(format!("fork server status: {e}")),
+            }
+        }
+    }
+
+    #[allow(clippy::too_many_arguments)]
+    fn launch(
+        &mut self,
+        args: &[String],
+        cwd: &Path,
+        colour: Colour,
+        plan: &Plan,
+        out: &Path,
+        err: &Path,
+        log: &Path,
+        cap: Duration,
+    ) -> Result<Ending, String> {
+        use std::io::Write;
+        let mut msg = String::new();
+        msg.push_str(&format!("KEY {}\n", plan.key_hex()));
+        msg.push_str(&format!("EINTR {}\nNOINSECURE {}\nCHUNK {}\n", plan.eintr, u8::from(plan.no_insecure), plan.chunk));
+        msg.push_str(&format!("SKEW_HEAP {}\nSKEW_MMAP {}\n", plan.skew_heap, plan.skew_mmap));
+        msg.push_str(&format!("CLOCK {} {}\nPID {}\n", plan.clock_base, plan.clock_step_ns, plan.pid));
+        msg.push_str(&format!("LOG {}\nOUT {}\nERR {}\nCWD {}\n", log.display(), out.display(), err.display(), cwd.display()));
+        for (k, v) in colour.env() {
+            msg.push_str(&format!("ENV {k}={v}\n"));
+        }
+        for (i, a) in args.iter().enumerate() {
+            if a.contains('\n') {
+                return Err("argument with a line break".to_owned());
+            }
+            msg.push_str(&format!("ARG {} {}\n", i + 1, a));
+        }
+        msg.push_str("GO\n");
+        self.ctl.write_all(msg.as_bytes()).and_then(|()| self.ctl.flush()).map_err(|e| format!("fork server ctl: {e}"))?;
+        let started = Instant::now();
+        let pid_line = self.read_line(started + Duration::from_secs(30))?.ok_or("fork server did not report a pid")?;
+        let pid: c_int = pid_line.strip_prefix("P ").and_then(|p| p.trim().parse().ok()).ok_or(format!("fork server said {pid_line:?}"))?;
+        let mut timed_out = false;
+        let status_line = match self.read_line(started + cap)? {
+            Some(l) => l,
+            None => {
+                timed_out = true;
+                if pid > 0 {
+                    // SAFETY: signalling the child the server just reported.
+                    unsafe { kill(pid, 9) };
+                }
+                self.read_line(Instant::now() + Duration::from_secs(30))?.ok_or("fork server did not reap a killed child")?
+            }
+        };
+        let raw: i32 = status_line.strip_prefix("X ").and_then(|p| p.trim().parse().ok()).ok_or(format!("fork server said {status_line:?}"))?;
+        if timed_out {
+            return Ok(Ending::TimedOut);
+        }
+        Ok(if raw & 0x7f == 0 { Ending::Exit((raw >> 8) & 0xff) } else { Ending::Signal(raw & 0x7f) })
+    }
+}
+
+impl Drop for ForkServer {
+    fn drop(&mut self) {
+        let _ = self.child.kill();
+        let _ = self.child.wait();
+    }
+}
+
+/// Launch through a fork server (started on first use). `args` must have the same count for
+/// every launch of one server, because the argument count is fixed when the server is exec'd.
+#[allow(clippy::too_many_arguments)]
+pub fn launch_forked(
+    env: &ExecEnv,
+    program: &Path,
+    args: &[String],
+    cwd: &Path,
+    scratch: &Path,
+    colour: Colour,
+    plan: &Plan,
+    tag: &str,
+) -> Result<(ExecObs, CallLog), String> {
+    let out_path = scratch.join(format!("{tag}.out"));
+    let err_path = scratch.join(format!("{tag}.err"));
+    let log_path = scratch.join(format!("{tag}.log"));
+    let _ = fs::remove_file(&log_path);
+    let argc = args.len() + 1;
+    let mut forks = env.forks.borrow_mut();
+    let idx = match forks.iter().position(|f| f.argc == argc && f.program == program) {
+        Some(i) => i,
+        None => {
+            forks.push(ForkServer::start(env, program, argc)?);
+            forks.len() - 1
+        }
+    };
+    let ending = match forks[idx].launch(args, cwd, colour, plan, &out_path, &err_path, &log_path, env.cap) {
+        Ok(e) => e,
+        Err(e) => {
+            // a server that lost protocol sync is not reused
+            forks.remove(idx);
+            return Err(e);
+        }
+    };
+    let stdout = fs::read(&out_path).unwrap_or_default();
+    let stderr = mask_tid(&fs::read(&err_path).unwrap_or_default());
+    let log = CallLog::parse(&fs::read_to_string(&log_path).unwrap_or_default());
+    let _ = fs::remove_file(&out_path);
+    let _ = fs::remove_file(&err_path);
+    let _ = fs::remove_file(&log_path);
+    Ok((ExecObs { ending, stdout, stderr }, log))
 }
 
 /// Launch `program args…` under the plan, in `cwd`, writing scratch files into `scratch`.
